@@ -50,25 +50,23 @@ TECHNIQUE = ("Lean 4 theorems about an executable model of create_linked_view (p
              "(incremental == from-scratch build into a second prefix, one link per selected job resolving to its "
              "directory, nothing else, no empty directory, second run changes nothing, rejection leaves the view "
              "byte-identical)")
-LEVEL_TEXT = ("Proved in Lean (no bound on the number of jobs, depth of paths or the history): for every pair of link sets "
-              "L0, L that pass the tool's checks (distinct paths, no path below another, all ending in the leaf name) and "
-              "whose components are ordinary names (not '' or '.'), and every view that is exactly the picture of L0 "
+LEVEL_TEXT = ("Proved in Lean (no bound on the number of jobs, depth of paths or the history): whatever input "
+              "create_linked_view ACCEPTS yields a valid link set (accepts_valid: distinct normalised paths, none below "
+              "another, all ending in the leaf name, no '' or '.' component) - derived from the code's own checks, not "
+              "assumed; hence, for every accepted input and every view that is the picture of an earlier accepted input "
               "(targets may dangle), the step list of _update_view (dead branches deepest first via the colouring tree, "
-              "changed links, mkdir -p + symlink) runs without a failing step and leaves exactly the picture of L: one "
-              "link per entry with its target, the directories leading to links, nothing else "
-              "(view_incremental_partial; view_exact_partial for the empty prefix; incremental = from scratch pointwise); "
-              "on an up-to-date view the step list is empty (view_idempotent_partial, view_twice_partial); an accepted "
-              "input satisfies the representability conditions and pairs the i-th path with the i-th job "
-              "(view_accepts_sound), an unrepresentable one returns the view unchanged before any step (view_rejects). "
-              "The statements without 'ordinary names' are kept as view_exact_full / view_incremental_full and refuted "
-              "by a concrete link set. The compiled model is compared with the real create_linked_view on every view op "
+              "changed links, mkdir -p + symlink) runs without a failing step and leaves exactly the picture of the new "
+              "link set: one link per selected job with its target, the directories leading to links, nothing else "
+              "(view_create, view_scratch), the same as building from scratch at every path (view_incremental_eq_scratch), "
+              "and a second run consists of no step at all (view_idempotent, view_twice); no input ever ends in a failed "
+              "file-system step (view_never_fails); an unrepresentable input returns the view unchanged before any step "
+              "(view_rejects), an accepted one satisfies the representability conditions (view_accepts_sound). The compiled model is compared with the real create_linked_view on every view op "
               "of every generated history, starting from the REAL prior tree (outcome + full set of directories and "
               "(link path, resolved target)).")
-LEVEL_NOTE = ("The model mirrors the code as it stands (after the fix commits for F-16b, F-16c, F-17a, F-17b, F-17c, F-17d, "
-              "all found by this check's direct oracle; no input class is carved out). Partial: the theorems need link "
-              "path components that are ordinary names and take distinct link paths ending in 'job' as a hypothesis "
-              "(the checks guarantee distinct path STRINGS and no leaf/node clash; that join+split keeps them distinct "
-              "is not proved). Not proved: that the path function (index, str(), normpath, format fragment) equals the "
+LEVEL_NOTE = ("The model mirrors the code as it stands (after the fix commits for F-16b, F-16c, F-17a, F-17b, F-17c, F-17d, F-17e, "
+              "all found by this check's direct oracle; no input class is carved out). The proof attempt of accepts_valid on the pinned tree failed and exposed F-17e (paths checked as raw "
+              "strings: 'd/' vs 'd/.' ended in FileExistsError on a half-updated view); fixed in /repo (normalise, "
+              "reject duplicates), model updated, theorem proved. Not proved: that the path function (index, str(), normpath, format fragment) equals the "
               "Python one - that is the correspondence; os.* semantics are modelled (finite map, errno behaviour of "
               "unlink/rmdir/makedirs/symlink), link TEXT (relative target) is not compared, only what it resolves to. "
               "Not covered: Windows, nested values with separators, foreign files in the view directory, -2.0 vs -2 "
